@@ -88,6 +88,12 @@ def catalog(tier="quick", labels="int"):
     for w in words:
         add(f"PauliRot[{w}]", 1, lambda w=w: qp.PauliRot(var_array(0), w, wires=list(range(len(w)))))
     mcx = [(2, "11", 0, None), (3, "101", 0, None), (3, "111", 1, "zeroed"), (3, "110", 1, "borrowed"), (4, "1111", 2, "zeroed")]
+    # every control-value pattern for 1..3 controls (the rules have special cases for few controls and for zeros)
+    import itertools as _it
+    for _nc in (1, 2, 3):
+        for _cv in _it.product("01", repeat=_nc):
+            if (_nc, "".join(_cv), 0, None) not in mcx:
+                mcx.append((_nc, "".join(_cv), 0, None))
     if tier != "quick":
         mcx += [(2, "00", 0, None), (4, "1010", 1, "borrowed"), (4, "1111", 1, "zeroed"), (4, "0111", 2, "borrowed"), (5, "11111", 3, "zeroed")]
     for nc, cv, nwork, wt in mcx:
